@@ -446,6 +446,13 @@ def c01_trace(r, tier: str) -> List[dict]:
             else:
                 op = {"o": "rehandshake", "client": r.randrange(nclients)}
             out.append(w.apply(op))
+        # under back-pressure: a few longer storms of updates of one property, the world advancing in very small steps in between
+        stormable = [(vi, v) for vi, v in enumerate(dep["vecs"], start=1) if v["kind"] in ("text", "number", "light")]
+        if w.net.backpressure and stormable:
+            for _ in range(4):
+                vi, v = r.choice(stormable)
+                subs = [{"o": "assign", "v": vi, "e": r.randint(1, len(v["elems"])), "x": DV.domain(v["kind"], r)} for _ in range(r.randint(5, 9))]
+                out.append(w.apply({"o": "storm", "ops": subs, "micro": [r.choice([0, 1, 1, 2, 2, 3, 4]) for _ in subs]}))
         # directed sequences that need several cooperating steps
         # (a) the same client writes two different elements of one property, with a driver-side change in between
         cand = [(vi, v) for vi, v in enumerate(dep["vecs"], start=1) if v["kind"] in ("text", "number") and sum(v["een"]) >= 2]
